@@ -16,3 +16,6 @@ open Rtsp.Life.C13
 #print axioms client_traces_accepted
 #print axioms client_close_terminates
 #print axioms session_close_terminates
+#print axioms client_close_own_paths
+#print axioms client_close_terminates_fair
+#print axioms fair_execution_exists
